@@ -1,7 +1,8 @@
 ------------------------------ MODULE SigSysMon ------------------------------
 (* Observer for traces of the real relay + real clients (drivers/sigsys).
    Lines: reset(b) / ev(a, p, i) / final(listens = sequence of [p, i, wants, partnerUp], sends = sequence of [p, i, data, res, upAtEnd, retSeq], recvs = sequence of [p, i, data, from, seq]).
-   seq / retSeq come from one global counter, so "received before the Send returned" is an order on observed events. *)
+   seq / retSeq come from one global counter; seq is taken when the receive call that returned the message STARTED (the message is consumed
+   and acked inside the call), retSeq when the Send returned: "received in a call that started before the Send returned". *)
 EXTENDS Naturals, Integers, Sequences, FiniteSets, TLC, Json, IOUtils
 Trace == ndJsonDeserialize(IOEnv.TRACE)
 Prop == IOEnv.PROP
